@@ -41,6 +41,10 @@ Props == { P("{name: \"x\"}", "{\"name\":\"x\"}", FALSE),
            P("{scopes: [\"r\", \"w\"], n: 1.5,}", "{\"scopes\":[\"r\",\"w\"],\"n\":1.5}", FALSE),
            P("{scopes: null}", "{\"scopes\":null}", FALSE),
            P("{}", "{}", FALSE),
+           \* a string VALUE that contains the closing sequence "})" followed by a space: any parser that ends the properties at the
+           \* first (rather than the last) "})" cuts the object in the middle of the string
+           P("{name: \"f\", hint: \"closes (see {expr}) first\"}", "{\"name\":\"f\",\"hint\":\"closes (see {expr}) first\"}", FALSE),
+           P("{scopes: [\"read:(any {t}) d\", \"w\"]}", "{\"scopes\":[\"read:(any {t}) d\",\"w\"]}", FALSE),
            P("{name: }", "", TRUE),
            P("{name: \"x\" \"y\"}", "", TRUE) }
 
